@@ -48,8 +48,9 @@ type Plan struct {
 	Seed uint64
 	// per-mille rates of background outcomes
 	NullPM, ErrPM, DirPM int
-	PanicPM              int // background rate of panicking resolvers (used by the websocket scenario)
-	TagPanicPM           int // background rate of Tag values whose eager marshal function panics
+	PanicPM              int  // background rate of panicking resolvers (used by the websocket scenario)
+	SharedErrors         bool // some failing resolvers return one shared error value (class S:shared)
+	TagPanicPM           int  // background rate of Tag values whose eager marshal function panics
 	// IcptFaults: the field interceptor (AroundFields) fails at this resolver-backed position
 	// before it calls next (KError or KPanic); RootIcptPanics: the root-field interceptor
 	// (AroundRootFields) panics at this root response key before it calls next
@@ -195,6 +196,10 @@ func (p *Plan) Scalar(key, typeName string) *parsers.J {
 		return parsers.NewStr(fmt.Sprintf("%s-%d", key, x%97))
 	}
 }
+
+// SharedErr says whether the failing resolver at path returns the error value that it shares with
+// other positions (only consulted by servers that enable shared errors).
+func (p *Plan) SharedErr(path string) bool { return p.SharedErrors && h64(p.Seed, "se|"+path)%2 == 0 }
 
 // TypedNil says whether a null outcome at an interface-typed position is delivered as a typed nil
 // pointer instead of a nil interface.
